@@ -1,17 +1,32 @@
-/* C16 replay: carquet_column_index_page_might_match of the real src/metadata/page_index.c, INT32 column, one page
- * with bounds [pmin, pmax] added through the real builder API (plain little-endian bytes, as the writer stores them). */
+/* C16 replay: carquet_column_index_page_might_match of the real src/metadata/page_index.c, numeric column (RT: 1 INT32,
+ * 2 INT64, 4 FLOAT, 5 DOUBLE; default INT32), one page with bounds [pmin, pmax] added through the real builder API
+ * (plain little-endian bytes, as the writer stores them).  All values are bit patterns. */
 #include "cex.h"
 const char *__asan_default_options(void) { return "detect_leaks=0"; }
 #include "src/metadata/page_index.c"
+#ifndef RT
+#define RT 1
+#endif
+#if RT == 1
+typedef int32_t pv_t;
+#elif RT == 2
+typedef int64_t pv_t;
+#elif RT == 4
+typedef float pv_t;
+#else
+typedef double pv_t;
+#endif
+static pv_t fb(uint64_t b) { pv_t v; memcpy(&v, &b, sizeof v); return v; }
 CEX_MAIN {
-  CEX_I64(pmin); CEX_I64(pmax); CEX_I64(qmin); CEX_I64(qmax); CEX_I64(x); CEX_U64(present);
-  int32_t a = (int32_t)pmin, b = (int32_t)pmax, c = (int32_t)qmin, d = (int32_t)qmax, xv = (int32_t)x;
-  carquet_column_index_builder_t *ix = carquet_column_index_builder_create(CARQUET_PHYSICAL_INT32, 0);
-  carquet_status_t st = carquet_column_index_add_page(ix, 0, (present & 1) ? &a : NULL, 4, (present & 2) ? &b : NULL, 4, false);
+  CEX_U64(pmin); CEX_U64(pmax); CEX_U64(qmin); CEX_U64(qmax); CEX_U64(x); CEX_U64(present);
+  pv_t a = fb(pmin), b = fb(pmax), c = fb(qmin), d = fb(qmax), xv = fb(x);
+  int32_t L = (int32_t)sizeof(pv_t);
+  carquet_column_index_builder_t *ix = carquet_column_index_builder_create((carquet_physical_type_t)RT, 0);
+  carquet_status_t st = carquet_column_index_add_page(ix, 0, (present & 1) ? &a : NULL, L, (present & 2) ? &b : NULL, L, false);
   CEX_CHECK(st == CARQUET_OK, "add_page failed");
   bool mm = false;
-  st = carquet_column_index_page_might_match(ix, 0, (present & 4) ? &c : NULL, (present & 8) ? &d : NULL, 4, &mm);
-  fprintf(stderr, "page [%d, %d] query [%d, %d] present=%u witness x=%d -> rc=%d might_match=%d\n", a, b, c, d, (unsigned)present, xv, (int)st, (int)mm);
+  st = carquet_column_index_page_might_match(ix, 0, (present & 4) ? &c : NULL, (present & 8) ? &d : NULL, L, &mm);
+  fprintf(stderr, "page [%g, %g] query [%g, %g] present=%u witness x=%g -> rc=%d might_match=%d\n", (double)a, (double)b, (double)c, (double)d, (unsigned)present, (double)xv, (int)st, (int)mm);
   bool in_page = (!(present & 1) || a <= xv) && (!(present & 2) || xv <= b);
   bool in_query = (!(present & 4) || c <= xv) && (!(present & 8) || xv <= d);
   CEX_ASSUME(in_page && in_query);
